@@ -86,7 +86,17 @@ def comm_case(arg: tuple[int, str, int]) -> list[str]:
         m = torch.triu(a) + torch.triu(a, 1).t()
         out: dict[str, Any] = {}
         comm = TorchDistributedCommunicator(bucket_cap_mb=0.001)
+        m2 = m * 3 + torch.eye(n, dtype=dt)        # a second matrix, same size
         for sym in (False, True):
+            # two same-sized operations in flight before either is awaited
+            fa = comm.allreduce(m.clone(), average=False, symmetric=sym)
+            fb = comm.allreduce(m2.clone(), average=True, symmetric=sym)
+            fc = comm.broadcast(m.clone(), src=0, symmetric=sym)
+            fd = comm.broadcast(m2.clone(), src=2, symmetric=sym)
+            out[f'fl_d{sym}'] = fd.wait()
+            out[f'fl_b{sym}'] = fb.wait()
+            out[f'fl_a{sym}'] = fa.wait()
+            out[f'fl_c{sym}'] = fc.wait()
             f = comm.allreduce(m.clone(), average=True, symmetric=sym)
             out[f'ar{sym}'] = f.wait()
             f = comm.broadcast(m.clone(), src=1, symmetric=sym)
@@ -108,7 +118,7 @@ def comm_case(arg: tuple[int, str, int]) -> list[str]:
     if bad:
         return bad
     for r in range(3):
-        for k in ('ar', 'bc', 'ab', 'ab2'):
+        for k in ('ar', 'bc', 'ab', 'ab2', 'fl_a', 'fl_b', 'fl_c', 'fl_d'):
             d, s = res[r][f'{k}False'], res[r][f'{k}True']
             if d.dtype != s.dtype or d.shape != s.shape or \
                     not torch.equal(d, s):
